@@ -44,6 +44,7 @@ type sched struct {
 	lockWaits int
 	hung      [maxTasks]bool // the task sits in a Write that never returns ("hang" fault)
 	nHung     int
+	nStuck    int // tasks left waiting behind a hung one when the episode ended
 	yields    int
 	maxYields int
 	switches  int
@@ -145,7 +146,7 @@ func (w *W) runTasks() {
 	first := 1 + s.choose(n, false)
 	s.release(first)
 	<-s.done
-	for i := 0; i < n-s.hungCount(); i++ {
+	for i := 0; i < n-s.hungCount()-s.nStuck; i++ {
 		<-s.joined
 	}
 	w.quiet = false
@@ -347,17 +348,10 @@ func (s *sched) hang() {
 	s.nHung++
 	others := s.runnableOthers(me)
 	if others == 0 {
-		if s.wakeSoft() {
-			select {}
-		}
-		for i := 1; i <= s.n; i++ {
-			if s.alive[i] && !s.hung[i] && s.waiting[i] != 0 {
-				s.deadlock(me, s.waiting[i])
-			}
-		}
-		s.finished = true
-		s.cur = 0
-		close(s.done)
+		// everybody else has finished or waits - behind this Write, for all the scheduler knows (a logger that lets
+		// one caller write at a time makes the others wait for a destination that never comes back; that is the
+		// destination's doing). The episode is over; which calls were left unfinished is for the oracle to judge.
+		s.endWithHung()
 		select {}
 	}
 	v := 1 + s.choose(others, false)
@@ -387,6 +381,12 @@ func (s *sched) blocked(key uintptr) bool {
 	}
 	me := s.cur
 	others := s.runnableOthers(me)
+	if others == 0 && s.nHung > 0 {
+		// the only tasks that could release what this one waits for sit in a Write that never returns
+		s.waiting[me] = key
+		s.endWithHung()
+		select {}
+	}
 	if others == 0 {
 		if softKey(key) {
 			// a channel, condition variable or wait group (rule R7): somebody outside the scheduler's view (a timer, a
@@ -437,6 +437,22 @@ func softKey(key uintptr) bool { return key&1 == 1 }
 // selectKey is what a task in a polling select waits for: any channel operation wakes it.
 const selectKey = ^uintptr(0)
 
+// endWithHung ends the episode when nobody can run and at least one task sits in a Write that never returns.
+//
+//go:norace
+func (s *sched) endWithHung() {
+	if !s.finished {
+		for i := 1; i <= s.n; i++ {
+			if s.alive[i] && !s.hung[i] && s.waiting[i] != 0 {
+				s.nStuck++ // it will not come back either
+			}
+		}
+		s.finished = true
+		s.cur = 0
+		close(s.done)
+	}
+}
+
 // wakeSoft lets one task that waits for a channel (not a lock) run again when nobody else can: it will try once
 // more and then block for real. It reports whether there was one.
 //
@@ -470,6 +486,10 @@ func (s *sched) exit(me int) {
 		return
 	}
 	run := s.runnableOthers(me)
+	if run == 0 && s.nHung > 0 {
+		s.endWithHung()
+		return
+	}
 	if run == 0 {
 		if s.wakeSoft() {
 			return
